@@ -6,6 +6,19 @@ def S(name, nq, nt, **kw):
     return d
 
 PROPS = {
+    "C05": {
+        "module": "ZenonVerif.Props.C05",
+        "streams": [S("election", 2000, 200000)],
+        "rule": "election stream: delegation sets of 1..60 pillars (names: numbered / case variants / prefixes of one "
+                "another / arbitrary bytes / realistic; weights: all equal / all zero / few values / ZNN amounts / >64 bit "
+                "/ one heavy / distinct) x heights (small, uniform uint64, 2^63 and 2^64 boundaries) x (NodeCount,RandCount) "
+                "(live 30/15 in 60% of the cases, small and random groups otherwise) through the real SelectProducers; "
+                "distinct = distinct (op,result) lines; every line is evaluated on the real code and on the model, and "
+                "the monitors re-run the real code on a permuted copy of the input",
+        "partial": "rand.Perm and sort.Sort are parameters (any permutation / any sorted permutation)",
+        "assumptions": ["math/rand.Perm returns a permutation of 0..n-1 (checked by the driver on every shipped oracle value)",
+                        "sort.Sort returns a sorted permutation of its input"],
+    },
     "C12": {
         "module": "ZenonVerif.Props.C12",
         "streams": [S("pow", 20000, 1000000)],
